@@ -464,8 +464,9 @@ pub fn run(ctx: &mut Ctx) {
     }
     let n = ctx.n(220, 5000);
     let mut dumped = 0;
-    std::fs::create_dir_all("/verif/work/C01/pyref").ok();
-    for f in std::fs::read_dir("/verif/work/C01/pyref").into_iter().flatten().flatten() {
+    let pydir = format!("{}/pyref", ctx.dir);
+    std::fs::create_dir_all(&pydir).ok();
+    for f in std::fs::read_dir(&pydir).into_iter().flatten().flatten() {
         let _ = std::fs::remove_file(f.path());
     }
     for it in 0..n {
@@ -486,8 +487,8 @@ pub fn run(ctx: &mut Ctx) {
             ctx.bump("member_of_exactly_64KiB");
         }
         if dumped < 16 && (it % (n / 16).max(1) == 0) {
-            let _ = std::fs::write(format!("/verif/work/C01/pyref/{dumped:02}.bgzf"), &h.sink);
-            let _ = std::fs::write(format!("/verif/work/C01/pyref/{dumped:02}.raw"), &h.written);
+            let _ = std::fs::write(format!("{pydir}/{dumped:02}.bgzf"), &h.sink);
+            let _ = std::fs::write(format!("{pydir}/{dumped:02}.raw"), &h.written);
             dumped += 1;
         }
         if it == 0 {
